@@ -26,7 +26,7 @@ func recordBatchSize(msgs ...Message) (size int32) {
 
 	for i := range msgs {
 		msg := &msgs[i]
-		msz := recordSize(msg, msg.Time.Sub(baseTime), int64(i))
+		msz := recordSize(msg, timestampDelta(msg.Time, baseTime), int64(i))
 		size += int32(msz + varIntLen(int64(msz)))
 	}
 
@@ -95,9 +95,16 @@ func (r *recordBatch) writeTo(wb *writeBuffer) {
 	}
 }
 
-func recordSize(msg *Message, timestampDelta time.Duration, offsetDelta int64) int {
+// timestampDelta returns the difference between the millisecond timestamps of
+// t and base, which is what a record carries relative to the first timestamp
+// of its batch.
+func timestampDelta(t, base time.Time) int64 {
+	return timestamp(t) - timestamp(base)
+}
+
+func recordSize(msg *Message, timestampDelta int64, offsetDelta int64) int {
 	return 1 + // attributes
-		varIntLen(int64(milliseconds(timestampDelta))) +
+		varIntLen(timestampDelta) +
 		varIntLen(offsetDelta) +
 		varBytesLen(msg.Key) +
 		varBytesLen(msg.Value) +
